@@ -8,10 +8,12 @@ import (
 	"math/big"
 	"sort"
 	"strings"
+	"sync"
 
 	"github.com/NethermindEth/juno/core"
 	"github.com/NethermindEth/juno/core/felt"
 	"github.com/NethermindEth/juno/l1/eth"
+	"github.com/NethermindEth/juno/starknet"
 	"verifharness/chain"
 	"verifharness/hx"
 )
@@ -94,17 +96,76 @@ type Built struct {
 	Classes map[felt.Felt]core.ClassDefinition
 	Kinds   []string // transaction kinds, for the histogram
 	Pre07   bool     // fixture block hashed with the pre-0.7 rules of its network
+	// a tampering edited the cached AbiHash / ProgramHash of a delivered core.SierraClass directly: not a
+	// definition the model can be given (its class record holds the ABI text and the program)
+	ClassCacheTampered bool
 }
 
 var sierraCache = map[uint64]*felt.Felt{}
 
+// classKeyFn: the key a generated Sierra definition is delivered under = the MODEL's class hash, evaluated
+// (set by main; juno's own SierraClass.Hash must agree, checked there)
+var classKeyFn func(id uint64) *felt.Felt
+
+var sierraMu sync.Mutex
+
 func sierraHash(id uint64) *felt.Felt {
+	sierraMu.Lock()
+	defer sierraMu.Unlock()
 	if h, ok := sierraCache[id]; ok {
 		return h
 	}
-	h := chain.SierraHash(id)
+	h := classKeyFn(id)
 	sierraCache[id] = h
 	return h
+}
+
+var sierraVersions = []string{"0.1.0", "0.1.0", "0.1.0", "0.1.1", "", "0.12.0-rc1", "1", "0.1.0\x00"}
+
+// sierraDef: Sierra definition number id, a pure function of id: empty / one / several entry points per kind,
+// boundary selectors and indices, empty / short / non-ASCII ABI text, the two program shapes the adapter admits
+func sierraDef(id uint64) *starknet.SierraClass {
+	r := hx.NewRNG(id*0x9E37 + 0xC1A55)
+	d := &starknet.SierraClass{Version: sierraVersions[r.Intn(len(sierraVersions))]}
+	eps := func() []starknet.SierraEntryPoint {
+		n := []int{0, 0, 1, 1, 2, 3}[r.Intn(6)]
+		var l []starknet.SierraEntryPoint
+		for i := 0; i < n; i++ {
+			l = append(l, starknet.SierraEntryPoint{Selector: rf(r), Index: ru64(r)})
+		}
+		return l
+	}
+	d.EntryPoints.External, d.EntryPoints.L1Handler, d.EntryPoints.Constructor = eps(), eps(), eps()
+	switch r.Intn(5) {
+	case 0:
+		d.Abi = ""
+	case 1:
+		d.Abi = "[]"
+	case 2:
+		d.Abi = string([]byte{0xff, 0x00, byte(r.U64()), 0x7f})
+	default:
+		d.Abi = fmt.Sprintf(`[{"type":"function","name":"f%d","inputs":[],"outputs":[]}]`, r.Intn(1000))
+	}
+	if r.Chance(25) {
+		d.Program = []felt.Felt{core.SierraVersion010}
+	} else {
+		d.Program = append([]felt.Felt{*fz(1), *fz(uint64(r.Intn(8))), *fz(0)}, rfs(r, 3)...)
+	}
+	return d
+}
+
+func withCasm(sc *core.SierraClass, id uint64) *core.SierraClass {
+	sc.Compiled = &core.CasmClass{Bytecode: []felt.Felt{*fz(id)}, CompilerVersion: "2.0.0", Prime: big.NewInt(0)}
+	return sc
+}
+
+// sierraClass: a fresh core.SierraClass for definition id, through juno's adapter
+func sierraClass(id uint64) *core.SierraClass {
+	sc, ok := adaptSierra(sierraDef(id))
+	if !ok {
+		hx.Fatalf("generated a Sierra definition the adapter refuses")
+	}
+	return withCasm(sc, id)
 }
 
 func txVersion(v uint64, q bool) *core.TransactionVersion {
@@ -391,7 +452,7 @@ func genDiff(r *hx.RNG, ctx blockCtx) (*core.StateDiff, map[felt.Felt]core.Class
 			id := next.NextClass
 			next.NextClass++
 			d.DeclaredV1Classes[*sierraHash(id)] = rf(r)
-			classes[*sierraHash(id)] = chain.SierraClass(id)
+			classes[*sierraHash(id)] = sierraClass(id)
 			next.Sierra = append(next.Sierra, id)
 			if ctx.Version != "0.14.1" {
 				next.Migratable = append(next.Migratable, id)
